@@ -21,7 +21,7 @@ func corrC16(r *Run) {
 		"frames made readable singly or several at once, each in one of six fragmentation classes or split over two forced events; " +
 		"fast (always receiving) and slow (receiving on grant) consumer; non-trivial = history with at least one undecodable frame followed by a deliverable PDU; distinct by event list"
 	ts := pduTypes()
-	n := r.N(130, 2000)
+	n := r.N(240, 2400)
 	for i := 0; i < n; i++ {
 		i := i
 		confirmed(r, func() { c16Scenario(r, ts, i) })
@@ -110,6 +110,10 @@ func c16Scenario(r *Run, ts []pduType, idx int) {
 			c := open[rng.Intn(len(open))]
 			answered[c.ID] = true
 			f = frameOf(respFor(c.P, c.Seq))
+			if rng.Intn(3) == 0 { // a wire form of which the decoder consumes only a part
+				f = oddFrame(rng, f, 1+rng.Intn(2))
+				hist["item/response-partly-consumed"]++
+			}
 			hist["item/response"]++
 		case k < 7:
 			var done []*Call
